@@ -270,6 +270,7 @@ def compare_programs(a, b, what=("name", "version", "target", "type", "parameter
 # ------------------------------------------------------------------ program vs reference program
 
 WEAK = [0]     # number of numeric values left unchecked because the reference bound was useless
+SYM_RTOL = [1e-9]   # tolerance for symbolic values (C08 tightens it: a transform's function is not printed and re-read)
 
 
 def value_matches(ref, act, path, out, points=None):
@@ -348,7 +349,11 @@ def value_matches(ref, act, path, out, points=None):
 
             def fn(beta):
                 return act.func(*[float(beta[("r", r)].v) for r in act.regrefs])
-            m = VC.sym_matches(ref, fn)
+            try:
+                m = VC.sym_matches(ref, fn, SYM_RTOL[0])
+            except IllConditioned:
+                WEAK[0] += 1        # no sample point at which the reference supports the tolerance: value left unchecked
+                return
             if m:
                 out.append(Mismatch(path + ":transform-" + m.cls, m.msg + " (func_str %r, regrefs %r)" % (act.func_str, act.regrefs)))
             return
@@ -360,7 +365,11 @@ def value_matches(ref, act, path, out, points=None):
         if want != got:
             out.append(Mismatch(path + ":free-symbols", "expected %r, got %r" % (want, got)))
             return
-        m = VC.sym_matches(ref, lambda beta: VC.sympy_at(act, beta))
+        try:
+            m = VC.sym_matches(ref, lambda beta: VC.sympy_at(act, beta))
+        except IllConditioned:
+            WEAK[0] += 1
+            return
         if m:
             out.append(Mismatch(path + ":" + m.cls, m.msg + " (expression %s)" % act))
         return
